@@ -47,13 +47,13 @@ PROPS = {
  "C13": dict(jobs=[CORPUS, chain("isolate", 25, 400, isolate=True), chain("fault", 10, 200)],
              rule=NONTRIVIAL + "; every history is re-executed once per tenant with the other tenants' activity removed and the tenant's projection compared",
              assumptions=BASE_ASSUME + ["treasury addresses of distinct tenants are assumed distinct (truncated SHA-256)"]),
- "C14": dict(jobs=[CORPUS, chain("oracle", 40, 600), ante(15, 250), chain("oracle", 25, 400, cr=0)], rule=NONTRIVIAL + "; the ante engine evaluates every invariant registered with the crisis keeper after each real block",
+ "C14": dict(jobs=[CORPUS, chain("oracle", 40, 600), chain("settle", 15, 300), ante(15, 250), chain("oracle", 25, 400, cr=0)], rule=NONTRIVIAL + "; the ante engine evaluates every invariant registered with the crisis keeper after each real block",
              assumptions=BASE_ASSUME + ["the SDK modules' own invariants are evaluated at run time, not modelled"]),
  "C15": dict(jobs=[CORPUS, chain("oracle", 60, 900), chain("mixed", 10, 200), chain("oracle", 15, 300, cr=0)], rule=NONTRIVIAL, assumptions=BASE_ASSUME),
  "C16": dict(jobs=[CORPUS, ante(40, 600), pure(800, 20000)], rule=NONTRIVIAL, assumptions=BASE_ASSUME + ["sdk.NormalizeDecCoin is the identity for denominations without a registered unit"]),
  "C17": dict(jobs=[CORPUS, chain("genesis", 40, 600), ante(8, 120)], rule=NONTRIVIAL + "; every history ends with an export -> JSON -> import -> export round trip, and about one step in six is followed by one in mid-history; the ante engine exports the whole application (app/export.go) from committed state and starts a fresh application from the document",
              assumptions=BASE_ASSUME + ["of the JSON codec only the treatment of free-form strings (request ids, prevote hashes) is modelled (jsonStr); bech32 and hex codecs are exercised, not modelled"]),
- "C18": dict(jobs=[CORPUS, pure(1500, 30000), chain("oracle", 15, 300), chain("malformed", 10, 200)], rule=NONTRIVIAL, assumptions=BASE_ASSUME + ["SHA-256 enters the theorems as an arbitrary function"]),
+ "C18": dict(jobs=[CORPUS, pure(1500, 30000), chain("oracle", 15, 300)], rule=NONTRIVIAL, assumptions=BASE_ASSUME + ["SHA-256 enters the theorems as an arbitrary function"]),
  "C19": dict(jobs=[CORPUS, pure(1500, 30000), chain("settle", 25, 400)], rule=NONTRIVIAL, assumptions=BASE_ASSUME + ["EIP-55 checksum casing is canonicalised away (a bijection on the lower-case form)"]),
  "C20": dict(jobs=[CORPUS, pure(2000, 40000), chain("settle", 10, 150), dict(engine="cacherace", n=(20000, 200000))], rule=NONTRIVIAL + "; one writer and four readers run under the Go race detector",
              assumptions=BASE_ASSUME + ["data-race freedom is a property of the Go memory model: covered by the lock-discipline fact and the race detector, not by a theorem"]),
